@@ -271,6 +271,26 @@ def check_class(prog, rep, modname, cname):
                     rep.ok("contains-contract", f"{fq}: str -> any(item.label == value) over self.{cont} (same predicate as lookup)", nontrivial=True)
                 else:
                     rep.fail("contains-contract", mod, fq, pe.node, f"label membership: {why}", construct=f"{fq} label predicate")
+            elif isinstance(v, ast.Constant) and isinstance(v.value, bool):
+                # membership stated through the lookup itself: `try: self[value]  except KeyError: return False`, then `return True` -
+                # "contained exactly when lookup by it succeeds", with __getitem__'s label branch decided by getitem-contract
+                caught = [t for t, pol in pe.guards if pol and isinstance(t, ast.Call) and isinstance(t.func, ast.Name) and t.func.id == "__except__"]
+                tr = getattr(caught[0], "_try", None) if caught else None
+                looked = [e for e in pe.effects if isinstance(e, ast.Expr) and ((isinstance(e.value, ast.Subscript) and norm(e.value.value) == "self" and norm(e.value.slice) == val)
+                                                                               or (isinstance(e.value, ast.Call) and norm(e.value.func) == "self.__getitem__" and [norm(a) for a in e.value.args] == [val]))]
+                if caught:
+                    body_is_lookup = tr is not None and len(tr.body) == 1 and isinstance(tr.body[0], ast.Expr) and (
+                        (isinstance(tr.body[0].value, ast.Subscript) and norm(tr.body[0].value.value) == "self" and norm(tr.body[0].value.slice) == val)
+                        or (isinstance(tr.body[0].value, ast.Call) and norm(tr.body[0].value.func) == "self.__getitem__" and [norm(a) for a in tr.body[0].value.args] == [val]))
+                    if v.value is False and body_is_lookup and [norm(a) for a in caught[0].args] == ["KeyError"]:
+                        rep.ok("contains-contract", f"{fq}: str -> False when the lookup self[{val}] raises KeyError", nontrivial=True)
+                    else:
+                        rep.fail("contains-contract", mod, fq, pe.node, "label membership is not decided by the label lookup failing with KeyError", construct=f"{fq} str branch")
+                elif v.value is True and looked:
+                    containers.setdefault("__contains__/str", containers.get("__getitem__/str", containers.get("__len__")))
+                    rep.ok("contains-contract", f"{fq}: str -> True after the lookup self[{val}] succeeded", nontrivial=True)
+                else:
+                    rep.fail("contains-contract", mod, fq, pe.node, "label membership is not any(item.label == value for item in <list>)", construct=f"{fq} str branch")
             else:
                 rep.fail("contains-contract", mod, fq, pe.node, "label membership is not any(item.label == value for item in <list>)", construct=f"{fq} str branch")
         elif cat == "item":
